@@ -9,7 +9,7 @@
      (eval tag unk hook expr datum retable)                      -> T | F | E:<class> | X | P
      (evaluate src opts datum retable)                           -> same, or NOCREATE
      (execute src opts datum retable)                            -> NOCREATE | ERR | PANIC | DATA | (slice ty (v..)) | (map ty ((k v)..))
-     (jeval expr json retable)                                   -> T | F | E   (the documented interpreter over JSON documents)
+     (jeval unk expr json retable)                                 -> T | F | E   (the documented interpreter over JSON documents)
      (dump h:indent lvl expr)                                    -> h:<text>
      (quote h:s) (unquote h:s) (parseint h:s base bits) (parseuint ..) (parsefloat h:s bits) (parsebool h:s)
      (ptrunescape h:s) (validutf8 h:s) (selstring sel)
@@ -229,8 +229,9 @@ let handle line =
        | Some (FErr _) -> "ERR" | Some FPanic -> "PANIC" | Some (FData _) -> "DATA"
        | Some (FSlice (t, l)) -> "(slice " ^ pty t ^ " (" ^ ostr_concat " " (List.map pvl l) ^ "))"
        | Some (FMap (t, l)) -> "(map " ^ pty t ^ " (" ^ ostr_concat " " (List.map (fun (k, v) -> "(" ^ pvl k ^ " " ^ pvl v ^ ")") l) ^ "))")
-  | L [A "jeval"; e; j; L tbl] ->
-      (match model_jeval (retable tbl) (ex e) (json_of j) with Some true -> "T" | Some false -> "F" | None -> "E")
+  | L [A "jeval"; u; e; j; L tbl] ->
+      let unk = (match u with A "none" -> None | L [A "some"; x] -> Some (json_of x) | _ -> failwith "jeval unknown") in
+      (match model_jeval (retable tbl) unk (ex e) (json_of j) with Some true -> "T" | Some false -> "F" | None -> "E")
   | L [A "dump"; A ind; A lvl; e] -> hex_of_coq (model_dump (cs ind) (nat_of_int (int_of_string lvl)) (ex e))
   | L [A "quote"; A s] -> hex_of_coq (go_quote (cs s))
   | L [A "unquote"; A s] -> (match unquote (cs s) with Some r -> "ok " ^ hex_of_coq r | None -> "err")
